@@ -38,6 +38,11 @@ type Thread struct {
 	op     *Op
 	wake   chan struct{}
 	exited chan struct{}
+	// Config.Fair: signature (cases + ready set) and chosen case of this thread's previous select, and the number of
+	// consecutive selects with that same signature (a busy-wait loop)
+	selSig  string
+	selLast int
+	spin    int
 }
 
 // Op is a pending operation of a parked thread.
@@ -79,6 +84,8 @@ type Config struct {
 	MaxSteps      int   // Tick / scheduling-point budget (non-termination verdict)
 	MaxIdleFires  int   // timer firings allowed while no thread is enabled (horizon); <0 = none
 	SelectCost    int   // deviation cost of taking a ready select case other than the first ready one
+	Fair          bool  // fair defaults for busy-wait loops: a select repeated with the same cases and ready set takes the next ready case round-robin by default, and a thread that repeated such a select twice is by default descheduled in favour of another enabled thread (the other choices stay available as deviations)
+	SwitchCost    int   // deviation cost of resuming, when the running thread blocked or exited, a thread other than the lowest-numbered enabled one (0 = free: classical preemption bounding; 1 = delay bounding)
 	Trace         bool
 	Prefix        []int // choices to replay; afterwards default choices
 	AtEnd         func() // called when the execution has ended, before leftover threads are torn down
@@ -107,6 +114,7 @@ type Sched struct {
 	cfg      Config
 	res      *Result
 	chans    map[uintptr]*vchan
+	chanSeq  int
 	timers   []*vtimer
 	timerSeq int
 	now      int64 // virtual ns since StartTime
@@ -337,6 +345,9 @@ func (s *Sched) point(op *Op) {
 	}
 	t.op = op
 	t.state = tParked
+	if op.cases == nil && !op.idleWait {
+		t.selSig, t.spin = "", 0
+	}
 	for {
 		next := s.decide(t)
 		if next != t {
@@ -423,6 +434,9 @@ func (s *Sched) decide(cur *Thread) *Thread {
 				anyThread = true
 			}
 		}
+		if s.cfg.Fair && curEnabled && cur.spin >= 2 && len(alts) > 1 {
+			alts = append(alts[1:], alts[0]) // a spinning thread yields by default
+		}
 		if !anyThread {
 			// idle waiters become enabled only when nothing else is
 			for _, t := range s.threads {
@@ -465,6 +479,8 @@ func (s *Sched) decide(cur *Thread) *Thread {
 				}
 				if a.kind == altThread && curEnabled {
 					costs[i] = 1 // preemption of a thread that could continue
+				} else if a.kind == altThread && s.cfg.SwitchCost > 0 {
+					costs[i] = uint8(s.cfg.SwitchCost) // not the lowest-numbered enabled thread
 				}
 				if a.kind == altTimer && anyThread {
 					costs[i] = 1 // a timer landing before a runnable thread moves
